@@ -22,7 +22,8 @@ LEVEL_TEXT = ('Static decision of the structural necessary conditions: every eva
               'stores into the best-trial slot of the Solution (the solving path; state-restoring entry points are '
               'outside it); where state-saving / state-restoring routines exist and exchange the trial record through '
               'string keys that can be read from the code, every field is restored from the key that was filled from '
-              'that field (writer / reader agreement; other storage designs are left out and counted).')
+              'that field (writer / reader agreement; other storage designs are left out and counted); the coordinate array of '
+              'an item point is not storage the evolvent keeps.')
 EXPLANATION = ('Event traces of the iteration driver (seeding routine inlined) pair EVAL(p) with UPDATE_OPT(p); the '
                'optimum updater is checked path by path against the truth table of the three-way predicate over '
                'all worlds compatible with the path guards; wiring of point/holder/slot through the task wrapper '
@@ -556,6 +557,31 @@ def r04_7(ctx: Ctx):
                   f'objective at the reported point',
                   key=f'{rid}::{o.site.split(":")[0]}::foreign-point::{hazard[0].site if hazard else ""}')
     ctx.floor(rid, 'search items created by the library', n, 1)
+    # the coordinate array of an item's point is the item's own: not an array the evolvent keeps as its working
+    # storage (a later query of the evolvent would rewrite the recorded point of an evaluated trial)
+    evc = ctx.ix.find_cls('Evolvent')
+    if evc is not None:
+        kept = set()
+        for o in list(pta._objs.values()):
+            if o.kind in ('inst', 'ext_inst') and o.cls is not None and o.cls.is_subclass_of(evc):
+                for k, v in pta.pts.items():
+                    if k[0] == 'F' and k[1] is o:
+                        kept |= {x for x in v if x.kind in ('ndarray', 'list')}
+        for o in list(pta._objs.values()):
+            if o.kind != 'inst' or o.cls is None or not o.cls.is_subclass_of(item) or \
+                    not o.site.startswith(('iOpt/method', 'iOpt/solver')):
+                continue
+            arrs = set()
+            for pt in pta.read_field(o, 'point'):
+                arrs |= {x for x in pta.read_field(pt, 'floatVariables') if x.kind in ('ndarray', 'list')}
+            shared = sorted(arrs & kept, key=lambda x: x.describe())
+            ctx.check(not shared, rid, f'item allocated at {o.site}', o.site.rsplit(':', 1)[0],
+                      'the coordinate array of the item\'s point is not storage of the evolvent',
+                      f'the coordinate array of a search item\'s point is an array the evolvent keeps '
+                      f'({shared[0].describe() if shared else ""}): the next query of the evolvent (an inverse image asked '
+                      f'by a listener, the next trial) rewrites the recorded point of an evaluated trial, so a reported '
+                      f'value no longer is the objective at the reported point',
+                      key=f'{rid}::{o.site.split(":")[0]}::point-is-evolvent-storage')
 
 
 def r04_9(ctx: Ctx):
